@@ -1,9 +1,31 @@
 import Anything.Model.Cli
 import Anything.Spec.Words
 import Anything.Lemmas.UnitWord
-import Anything.Lemmas.Scale
+import Anything.Lemmas.Words
+import Anything.Lemmas.UnitExpr
 /-!
 # C05 — every unit word denotes the standard definition of a unit and prefix
+
+* `C05_prefix_table`: the prefix literals are exactly the SI prefixes with their powers
+  of ten (reference: `Spec.UnitRef.prefixes`).
+* `C05_table` (+ `C05_table_refcheck`, `C05_table_complete`): every unit-name literal of
+  the two generated lexer tables has the dimensions and an admissible exact scale of the
+  reference row for that name — the comparison the runtime `refcheck` command makes —
+  except the known deviations, which `C05_pinned_*` pin to their current values.
+* `C05_reading` (+ `_word`, `_spec`, `_standard`, `_wordUnits`): for EVERY character
+  list, what `UnitWord.parse` accepts is dashes, an optional prefix literal and a
+  unit-name literal of the tables (longest matches), read with the tables' meaning; a
+  whole word is a concatenation of such pieces and one of `Spec.Words.readings`.
+* `C05_names`: every typeable unit name is accepted on its own as exactly that unit
+  (`C05_display_names`: so are the names the tool prints, but for two pinned ones).
+* `C05_expr*`: the loop of `eval::unit` — `*`, blanks and juxtaposition multiply, `/`
+  inverts everything after it, `^n` applies to the unit before it — computes the
+  dimensions and exact scale of the specification's reading of the children.
+
+All table facts are `decide +kernel` over `Anything.Generated`, so they are re-checked
+whenever the tables are regenerated. The theorems are about the model's ideal
+longest-literal lexer; the departures of the pinned `logos` lexer from longest-match
+(`dal…`, `zeV`; finding `class:logos-backtracking`) are outside the model.
 -/
 
 namespace Anything.Props.C05
@@ -101,6 +123,8 @@ example : (['k'], WordAction.pfx 3 none) ∈ Generated.combined ∧
 `refcheck` command prints for every unit-name literal (`C05_refcheck_iff`);
 `Admissible` spells it out (`C05_admissible_iff`). -/
 
+/-- The literal `lit`, mapped by a lexer table to the unit `k` with bias `bias`, agrees
+with the reference (executable form; the same case analysis as `checkName`). -/
 def admissible (lit : List Char) (k : UnitKey) (bias : Int) : Bool :=
   match findAffine lit with
   | some (m, a) =>
@@ -115,11 +139,16 @@ def admissible (lit : List Char) (k : UnitKey) (bias : Int) : Bool :=
        | .linear f => r.scales.contains (Arith.zpow 10 bias * f)
        | .affine _ _ => false) && dimsOf k == r.dims
 
+/-- Either `lit` names an offset temperature scale and `k` has exactly the reference
+slope and zero point (and dimension kelvin), or `lit` has a row in the reference table,
+`k` is a proportional unit with the row's dimensions, and `10^bias · factor` is one of
+the row's admissible exact scales. -/
 def Admissible (lit : List Char) (k : UnitKey) (bias : Int) : Prop :=
   (∃ m a, findAffine lit = some (m, a) ∧ scaleOf k = .affine m a ∧ dimsOf k = [0, 0, 0, 0, 0, 1, 0, 0]) ∨
   (findAffine lit = none ∧ ∃ r, findRow lit = some r ∧ dimsOf k = r.dims ∧
     ∃ f, scaleOf k = .linear f ∧ (10 : Rat) ^ bias * f ∈ r.scales)
 
+/-- `admissible` decides `Admissible`. -/
 theorem C05_admissible_iff (lit : List Char) (k : UnitKey) (bias : Int) :
     admissible lit k bias = true ↔ Admissible lit k bias := by
   unfold admissible Admissible
@@ -144,6 +173,7 @@ theorem C05_admissible_iff (lit : List Char) (k : UnitKey) (bias : Int) :
         simp [arith_zpow_eq, and_comm]
       | affine m' a' => simp
 
+/-- `admissible` is the `"OK"` verdict of the runtime `refcheck` command. -/
 theorem C05_refcheck_iff (lit : List Char) (k : UnitKey) (bias : Int) :
     checkName lit k bias = "OK" ↔ admissible lit k bias = true := by
   unfold checkName admissible
@@ -167,7 +197,6 @@ theorem C05_refcheck_iff (lit : List Char) (k : UnitKey) (bias : Int) :
         · split <;> simp_all
       | affine m' a' => simp [isAffine, hS]
 
-
 /-- The names excluded from `C05_table`, as character lists. -/
 def deviating : List (List Char) := knownDeviations.map String.toList
 
@@ -178,12 +207,20 @@ that name and, with the literal's bias, one of the row's admissible exact scales
 theorem C05_table (lit : List Char) (k : UnitKey) (bias : Int)
     (hm : (lit, WordAction.unit k bias) ∈ allRows) (hk : lit ∉ deviating) :
     Admissible lit k bias := by
-  have h1 : Generated.unitsOnly.all (fun r => match r.2 with
+  have a1 : (Generated.unitsOnly.take 120).all (fun r => match r.2 with
       | .unit k b => deviating.contains r.1 || admissible r.1 k b
       | _ => true) = true := by decide +kernel
-  have h2 : Generated.combined.all (fun r => match r.2 with
+  have a2 : (Generated.unitsOnly.drop 120).all (fun r => match r.2 with
       | .unit k b => deviating.contains r.1 || admissible r.1 k b
       | _ => true) = true := by decide +kernel
+  have b1 : (Generated.combined.take 140).all (fun r => match r.2 with
+      | .unit k b => deviating.contains r.1 || admissible r.1 k b
+      | _ => true) = true := by decide +kernel
+  have b2 : (Generated.combined.drop 140).all (fun r => match r.2 with
+      | .unit k b => deviating.contains r.1 || admissible r.1 k b
+      | _ => true) = true := by decide +kernel
+  have h1 := UnitWord.all_of_take_drop _ 120 _ a1 a2
+  have h2 := UnitWord.all_of_take_drop _ 140 _ b1 b2
   have := (List.mem_append.mp hm).elim (List.all_eq_true.mp h1 _) (List.all_eq_true.mp h2 _)
   simp only [Bool.or_eq_true, List.contains_iff_mem] at this
   rcases this with h1 | h1
@@ -305,12 +342,20 @@ theorem C05_pinned_all_deviate :
     | unit k b => exact ⟨k, b, hm⟩
     | pfx _ _ => simp at ha
     | sep => simp at ha
-  · have h1 : Generated.unitsOnly.all (fun r => match r.2 with
+  · have a1 : (Generated.unitsOnly.take 120).all (fun r => match r.2 with
         | .unit k b => !deviating.contains r.1 || !admissible r.1 k b
         | _ => true) = true := by decide +kernel
-    have h2 : Generated.combined.all (fun r => match r.2 with
+    have a2 : (Generated.unitsOnly.drop 120).all (fun r => match r.2 with
         | .unit k b => !deviating.contains r.1 || !admissible r.1 k b
         | _ => true) = true := by decide +kernel
+    have b1 : (Generated.combined.take 140).all (fun r => match r.2 with
+        | .unit k b => !deviating.contains r.1 || !admissible r.1 k b
+        | _ => true) = true := by decide +kernel
+    have b2 : (Generated.combined.drop 140).all (fun r => match r.2 with
+        | .unit k b => !deviating.contains r.1 || !admissible r.1 k b
+        | _ => true) = true := by decide +kernel
+    have h1 := UnitWord.all_of_take_drop _ 120 _ a1 a2
+    have h2 := UnitWord.all_of_take_drop _ 140 _ b1 b2
     intro lit k b hm hd hA
     have := (List.mem_append.mp hm).elim (List.all_eq_true.mp h1 _) (List.all_eq_true.mp h2 _)
     simp only [Bool.or_eq_true, Bool.not_eq_true', List.contains_eq_mem, decide_eq_false_iff_not] at this
@@ -318,5 +363,758 @@ theorem C05_pinned_all_deviate :
     · exact h1 hd
     · rw [(C05_admissible_iff lit k b).mpr hA] at h1; exact absurd h1 (by simp)
 
+/-! ## Reading a word -/
+
+/-- **C05 (shape of the lexer tables).** `-` is the only separator literal; every
+other literal is non-empty and does not start with `-`; a prefix literal with a
+stand-alone meaning is also a unit-name literal of the `Units` lexer with that very
+meaning (so the special case adds no reading of its own). -/
+theorem C05_table_shape :
+    (∀ lit, (lit, WordAction.sep) ∈ allRows → lit = ['-']) ∧
+    (∀ lit act, (lit, act) ∈ allRows → act ≠ WordAction.sep → ∃ c cs, lit = c :: cs ∧ c ≠ '-') ∧
+    (∀ plit q u b, (plit, WordAction.pfx q (some (u, b))) ∈ Generated.combined →
+      (plit, WordAction.unit u b) ∈ Generated.unitsOnly) := by
+  refine ⟨?_, ?_, ?_⟩
+  · have h : allRows.all (fun r => r.2 != WordAction.sep || r.1 == ['-']) = true := by decide +kernel
+    intro lit hm
+    have := List.all_eq_true.mp h _ hm
+    simpa using this
+  · have h : allRows.all (fun r => r.2 == WordAction.sep || match r.1 with
+        | c :: _ => c != '-'
+        | [] => false) = true := by decide +kernel
+    intro lit act hm ha
+    have := List.all_eq_true.mp h _ hm
+    simp only [Bool.or_eq_true, beq_iff_eq, ha, false_or] at this
+    cases lit with
+    | nil => simp at this
+    | cons c cs => exact ⟨c, cs, rfl, by simpa using this⟩
+  · have h : Generated.combined.all (fun r => match r.2 with
+        | .pfx _ (some (u, b)) => Generated.unitsOnly.contains (r.1, WordAction.unit u b)
+        | _ => true) = true := by decide +kernel
+    intro plit q u b hm
+    have := List.all_eq_true.mp h _ hm
+    simpa using this
+
+/-- What one successful call of `UnitWord.parse` on `s` has consumed, leaving `rest`
+and returning the stored prefix `p` and the unit `u`. `k`, `j` count separator
+dashes. In each case the literals are longest matches of their lexer table. -/
+inductive Piece (s rest : List Char) (p : Int) (u : UnitKey) : Prop
+  /-- a unit-name literal of the first lexer; the stored prefix is the literal's bias -/
+  | name (k : Nat) (lit : List Char) (bias : Int)
+      (split : s = List.replicate k '-' ++ lit ++ rest)
+      (row : (lit, WordAction.unit u bias) ∈ Generated.combined)
+      (longest : UnitWord.IsLongest Generated.combined lit (lit ++ rest))
+      (pfx : p = bias)
+  /-- a prefix literal with nothing after it that also is a unit name (`m`, `h`, `T` …) -/
+  | alone (k : Nat) (lit : List Char) (q bias : Int)
+      (split : s = List.replicate k '-' ++ lit) (nothing : rest = [])
+      (row : (lit, WordAction.pfx q (some (u, bias))) ∈ Generated.combined)
+      (unitRow : (lit, WordAction.unit u bias) ∈ Generated.unitsOnly)
+      (longest : UnitWord.IsLongest Generated.combined lit lit)
+      (pfx : p = bias)
+  /-- a prefix literal, then a unit-name literal of the second lexer; the stored prefix
+  is the prefix's power of ten plus the name's bias -/
+  | prefixed (k j : Nat) (plit nlit : List Char) (q bias : Int) (alone : Option (UnitKey × Int))
+      (split : s = List.replicate k '-' ++ plit ++ (List.replicate j '-' ++ nlit ++ rest))
+      (prefixRow : (plit, WordAction.pfx q alone) ∈ Generated.combined)
+      (unitRow : (nlit, WordAction.unit u bias) ∈ Generated.unitsOnly)
+      (longestPrefix : UnitWord.IsLongest Generated.combined plit
+        (plit ++ (List.replicate j '-' ++ nlit ++ rest)))
+      (longestName : UnitWord.IsLongest Generated.unitsOnly nlit (nlit ++ rest))
+      (pfx : p = q + bias)
+
+/-- **C05 (reading, one piece).** For EVERY character list `s`: if `parse` accepts, it
+has consumed dashes, possibly a prefix literal, and a unit-name literal — entries of
+the generated tables that map to that prefix exponent and to that unit with that bias
+— and the remainder is strictly shorter than `s`. -/
+theorem C05_reading (s rest : List Char) (p : Int) (u : UnitKey)
+    (h : UnitWord.parse s = some (rest, p, u)) : Piece s rest p u ∧ rest.length < s.length := by
+  obtain ⟨hsep, hne, halone⟩ := C05_table_shape
+  have hsepC : ∀ lit, (lit, WordAction.sep) ∈ Generated.combined → lit = ['-'] :=
+    fun lit hm => hsep lit (List.mem_append_right _ hm)
+  have hsepU : ∀ lit, (lit, WordAction.sep) ∈ Generated.unitsOnly → lit = ['-'] :=
+    fun lit hm => hsep lit (List.mem_append_left _ hm)
+  have neC : ∀ lit act, (lit, act) ∈ Generated.combined → act ≠ WordAction.sep → lit ≠ [] := by
+    intro lit act hm ha
+    obtain ⟨c, cs, rfl, _⟩ := hne lit act (List.mem_append_right _ hm) ha
+    simp
+  have neU : ∀ lit act, (lit, act) ∈ Generated.unitsOnly → act ≠ WordAction.sep → lit ≠ [] := by
+    intro lit act hm ha
+    obtain ⟨c, cs, rfl, _⟩ := hne lit act (List.mem_append_left _ hm) ha
+    simp
+  unfold UnitWord.parse at h
+  split at h
+  · simp at h
+  · rename_i rest' p' u' h1
+    simp only [Option.some.injEq, Prod.mk.injEq] at h
+    obtain ⟨rfl, rfl, rfl⟩ := h
+    obtain ⟨seps, lit, hS, hs, hlong, hcase⟩ := UnitWord.phase1_done h1
+    obtain ⟨k, rfl⟩ := hS.replicate hsepC
+    rcases hcase with ⟨bias, hm, hp⟩ | ⟨q, bias, hm, hr, hp⟩
+    · exact ⟨.name k lit bias hs hm hlong (by omega),
+        UnitWord.length_lt_of_split hs (neC _ _ hm (by simp))⟩
+    · subst hr
+      refine ⟨.alone k lit q bias (by simpa using hs) rfl hm (halone _ _ _ _ hm)
+        (by simpa using hlong) (by omega), UnitWord.length_lt_of_split hs (neC _ _ hm (by simp))⟩
+  · rename_i rest' p' h1
+    obtain ⟨seps, plit, q, alone, hS, hs, hlong, hm, hp, _⟩ := UnitWord.phase1_cont h1
+    obtain ⟨k, rfl⟩ := hS.replicate hsepC
+    obtain ⟨seps2, nlit, bias, hS2, hs2, hlong2, hm2, hp2⟩ := UnitWord.phase2_some h
+    obtain ⟨j, rfl⟩ := hS2.replicate hsepU
+    subst hs2
+    refine ⟨.prefixed k j plit nlit q bias alone hs hm hm2 hlong hlong2 (by omega), ?_⟩
+    have := UnitWord.length_lt_of_split hs (neC _ _ hm (by simp))
+    simp only [List.length_append] at this ⊢
+    omega
+
+/-- A word read completely as a sequence of pieces `(stored prefix, unit)`. -/
+inductive Reading : List Char → List (Int × UnitKey) → Prop
+  | nil : Reading [] []
+  | cons {s rest : List Char} {p : Int} {u : UnitKey} {tl : List (Int × UnitKey)} :
+      Piece s rest p u → rest.length < s.length → Reading rest tl → Reading s ((p, u) :: tl)
+
+/-- **C05 (reading, whole word).** Whenever the `parser.next()` loop accepts a word,
+the word is a concatenation of `[prefix-literal] unit-literal` pieces (dashes between
+them), each read with the meaning the lexer tables give to its literals. -/
+theorem C05_reading_word (s : List Char) (l : List (Int × UnitKey))
+    (h : UnitWord.parseWord s = some l) : Reading s l := by
+  unfold UnitWord.parseWord at h
+  generalize s.length + 1 = fuel at h
+  induction fuel generalizing s l with
+  | zero => simp [UnitWord.parseAll] at h
+  | succ fuel ih =>
+    rcases UnitWord.parseAll_cons h with ⟨rfl, rfl⟩ | ⟨rest, p, u, tl, hp, hlt, htl, rfl⟩
+    · exact .nil
+    · exact .cons (C05_reading s rest p u hp).1 hlt (ih rest tl htl)
+
+/-- **C05 (reading, against the specification).** Whenever the tool accepts a unit
+word, its interpretation is one of the valid readings of that word enumerated by
+`Spec.Words.readings`: SI prefix plus unit name(s) from the tables. -/
+theorem C05_reading_spec (s : List Char) (l : List (Int × UnitKey))
+    (h : UnitWord.parseWord s = some l) : l ∈ Words.readings (s.length + 1) s := by
+  obtain ⟨_, hne, _⟩ := C05_table_shape
+  have hR := C05_reading_word s l h
+  suffices H : ∀ fuel, s.length < fuel → l ∈ Words.readings fuel s from H _ (Nat.lt_succ_self _)
+  clear h
+  induction hR with
+  | nil =>
+    intro fuel hf
+    cases fuel with
+    | zero => omega
+    | succ fuel => simp [Words.readings, Words.skipSep_nil]
+  | @cons s rest p u tl hP hlt _ ih =>
+    intro fuel hf
+    cases fuel with
+    | zero => omega
+    | succ fuel =>
+      have htl := ih fuel (by omega)
+      cases hP with
+      | name k lit bias split row _ pfx =>
+        obtain ⟨c, cs, rfl, hc⟩ := hne lit _ (List.mem_append_right _ row) (by simp)
+        subst split pfx
+        simp only [Words.readings, List.append_assoc, Words.skipSep_replicate, List.cons_append,
+          Words.skipSep_cons _ hc, List.isEmpty_cons, Bool.false_eq_true, ↓reduceIte,
+          List.flatMap_cons, List.mem_append]
+        left
+        simp only [List.mem_flatMap]
+        refine ⟨_, Words.mem_nameTable_combined row, ?_⟩
+        have hp := Words.isPrefixOf_append (c :: cs) rest
+        simp only [List.cons_append] at hp
+        simp only [List.isEmpty_cons, Bool.not_false, hp, Bool.and_self, ↓reduceIte, List.mem_map]
+        refine ⟨tl, ?_, by simp⟩
+        simpa using htl
+      | alone k lit q bias split nothing row unitRow _ pfx =>
+        obtain ⟨c, cs, rfl, hc⟩ := hne lit _ (List.mem_append_left _ unitRow) (by simp)
+        subst split pfx nothing
+        simp only [Words.readings, Words.skipSep_replicate,
+          Words.skipSep_cons _ hc, List.isEmpty_cons, Bool.false_eq_true, ↓reduceIte,
+          List.flatMap_cons, List.mem_append]
+        left
+        simp only [List.mem_flatMap]
+        refine ⟨_, Words.mem_nameTable_unitsOnly unitRow, ?_⟩
+        have hp := Words.isPrefixOf_append (c :: cs) []
+        simp only [List.append_nil] at hp
+        simp only [List.isEmpty_cons, Bool.not_false, hp, Bool.and_self, ↓reduceIte, List.mem_map]
+        refine ⟨tl, ?_, by simp⟩
+        simpa using htl
+      | prefixed k j plit nlit q bias alone split prefixRow unitRow _ _ pfx =>
+        obtain ⟨c, cs, rfl, hc⟩ := hne plit _ (List.mem_append_right _ prefixRow) (by simp)
+        obtain ⟨d, ds, rfl, hd⟩ := hne nlit _ (List.mem_append_left _ unitRow) (by simp)
+        subst split pfx
+        simp only [Words.readings, List.append_assoc, Words.skipSep_replicate, List.cons_append,
+          Words.skipSep_cons _ hc, List.isEmpty_cons, Bool.false_eq_true, ↓reduceIte,
+          List.flatMap_cons, List.mem_append]
+        right
+        simp only [List.mem_flatMap, List.mem_filterMap]
+        refine ⟨(q, d :: ds ++ rest), ⟨_, Words.mem_prefixTable prefixRow, ?_⟩, ?_⟩
+        · have hp := Words.isPrefixOf_append (c :: cs) (List.replicate j '-' ++ (d :: (ds ++ rest)))
+          simp only [List.cons_append] at hp
+          simp only [hp, ↓reduceIte, Option.some.injEq, Prod.mk.injEq, true_and]
+          have : List.drop (c :: cs).length (c :: (cs ++ (List.replicate j '-' ++ d :: (ds ++ rest))))
+              = List.replicate j '-' ++ d :: (ds ++ rest) := by
+            simp
+          rw [this, Words.skipSep_replicate, Words.skipSep_cons _ hd]
+          simp
+        · refine ⟨_, Words.mem_nameTable_unitsOnly unitRow, ?_⟩
+          have hp := Words.isPrefixOf_append (d :: ds) rest
+          simp only [hp, List.isEmpty_cons, Bool.not_false, Bool.and_self, ↓reduceIte, List.mem_map]
+          refine ⟨tl, ?_, by simp⟩
+          simpa using htl
+
+/-- **C05 (reading, as evaluated).** The WORD branch of `eval::unit` accepts a word
+exactly through such a reading: the word is a concatenation of pieces (`Reading`), one
+of the specification's valid readings, and the compound is updated with every piece
+at the current sign `cur`. -/
+theorem C05_reading_wordUnits (cur : Int) (s : List Char) (c c' : Compound)
+    (last last' : Option (UnitKey × Int))
+    (h : Eval.wordUnits cur (s.length + 1) s c last = .ok (c', last')) :
+    ∃ l, Reading s l ∧ l ∈ Words.readings (s.length + 1) s ∧
+      applyPieces cur c l = .ok c' ∧ last' = lastPiece l last := by
+  obtain ⟨l, hp, hu, hl⟩ := wordUnits_ok h
+  exact ⟨l, C05_reading_word s l hp, C05_reading_spec s l hp, hu, hl⟩
+
+/-- **C05 (reading, standard meaning).** Putting the pieces together: whatever `parse`
+accepts at the front of a word is an optional SI prefix of the reference (with its
+power of ten `q`) followed by a unit name of the tables; the stored prefix is
+`q + bias`; and unless the name is one of the known deviations, the unit has the
+dimensions and — with the bias — an admissible exact scale of the reference row for
+that name. -/
+theorem C05_reading_standard (s rest : List Char) (p : Int) (u : UnitKey)
+    (h : UnitWord.parse s = some (rest, p, u)) :
+    ∃ (k j : Nat) (plit nlit : List Char) (q bias : Int),
+      s = List.replicate k '-' ++ plit ++ (List.replicate j '-' ++ nlit ++ rest) ∧
+      ((plit = [] ∧ j = 0 ∧ q = 0) ∨ refPrefix plit = some q) ∧
+      p = q + bias ∧ (nlit, WordAction.unit u bias) ∈ allRows ∧
+      (nlit ∉ deviating → Admissible nlit u bias) := by
+  obtain ⟨hP, _⟩ := C05_reading s rest p u h
+  cases hP with
+  | name k lit bias split row _ pfx =>
+    have hm : (lit, WordAction.unit u bias) ∈ allRows := List.mem_append_right _ row
+    exact ⟨k, 0, [], lit, 0, bias, by simpa using split, Or.inl ⟨rfl, rfl, rfl⟩, by omega, hm,
+      C05_table lit u bias hm⟩
+  | alone k lit q bias split nothing row unitRow _ pfx =>
+    have hm : (lit, WordAction.unit u bias) ∈ allRows := List.mem_append_left _ unitRow
+    exact ⟨k, 0, [], lit, 0, bias, by simpa [nothing] using split, Or.inl ⟨rfl, rfl, rfl⟩, by omega, hm,
+      C05_table lit u bias hm⟩
+  | prefixed k j plit nlit q bias alone split prefixRow unitRow _ _ pfx =>
+    have hm : (nlit, WordAction.unit u bias) ∈ allRows := List.mem_append_left _ unitRow
+    exact ⟨k, j, plit, nlit, q, bias, split, Or.inr (C05_prefix_table.1 plit q alone prefixRow), pfx, hm,
+      C05_table nlit u bias hm⟩
+
+/-- Non-vacuity of `C05_reading`: `kWh` is read one piece at a time — kilo + watt,
+leaving `h` — and as a whole word it is kilowatt · hour, a reading the specification
+lists; `m` alone is the metre, `k-m` the kilometre. -/
+example : UnitWord.parse "kWh".toList = some (['h'], 3, .derived 2843211920) ∧
+    UnitWord.parseWord "kWh".toList = some [(3, .derived 2843211920), (0, .derived 1021968385)] ∧
+    UnitWord.parse ['m'] = some ([], 0, .base .Meter) ∧
+    UnitWord.parse "k-m".toList = some ([], 3, .base .Meter) ∧
+    UnitWord.parseWord "dalek".toList = none := by decide +kernel
+
+/-! ## Unit expressions -/
+
+section Loop
+open Eval
+
+/-- Children without children of their own (tokens such as blanks) are invisible. -/
+theorem C05_expr_skip (cur : Int) (c : Compound) (last : Option (UnitKey × Int))
+    (pending : Option (Option (UnitKey × Int) × At)) (a : At) (rest : List At)
+    (ha : a.t.hasChildren = false) :
+    unitLoop cur c last pending (a :: rest) = unitLoop cur c last pending rest := by
+  simp [unitLoop, ha]
+
+/-- (a) `*` and blanks multiply: an OP_MUL or WHITESPACE child leaves the sign, the
+compound and the last unit unchanged. -/
+theorem C05_expr_mul (cur : Int) (c : Compound) (last : Option (UnitKey × Int)) (a : At) (rest : List At)
+    (ha : a.t.hasChildren = true) (hk : a.t.kind = .OP_MUL ∨ a.t.kind = .WHITESPACE) :
+    unitLoop cur c last none (a :: rest) = unitLoop cur c last none rest := by
+  rcases hk with hk | hk <;> simp [unitLoop, ha, hk]
+
+/-- (b) `/` inverts everything after it: an OP_DIV child negates the sign for the
+whole remaining list (nothing ever resets it). -/
+theorem C05_expr_div (cur : Int) (c : Compound) (last : Option (UnitKey × Int)) (a : At) (rest : List At)
+    (ha : a.t.hasChildren = true) (hk : a.t.kind = .OP_DIV) :
+    unitLoop cur c last none (a :: rest) = unitLoop (-cur) c last none rest := by
+  simp [unitLoop, ha, hk]
+
+/-- A number other than a `^` exponent must be `1` (as in `1/s`) and changes nothing. -/
+theorem C05_expr_one (cur : Int) (c : Compound) (last : Option (UnitKey × Int)) (a : At) (rest : List At)
+    (ha : a.t.hasChildren = true) (hk : a.t.kind = .NUMBER) (hn : parseI32 a.t.text = some 1) :
+    unitLoop cur c last none (a :: rest) = unitLoop cur c last none rest := by
+  simp [unitLoop, ha, hk, hn]
+
+/-- A WORD child adds `cur` to the power of each of its units, in order, and makes its
+last unit the one a following `^` applies to. -/
+theorem C05_expr_word (cur : Int) (c c' : Compound) (last : Option (UnitKey × Int)) (a : At) (rest : List At)
+    (l : List (Int × UnitKey))
+    (ha : a.t.hasChildren = true) (hk : a.t.kind = .WORD) (hw : UnitWord.parseWord a.t.text = some l)
+    (hu : applyPieces cur c l = .ok c') :
+    unitLoop cur c last none (a :: rest) = unitLoop cur c' (lastPiece l last) none rest := by
+  have := wordUnits_of_pieces (last := last) hw hu
+  simp [unitLoop, ha, hk, this]
+
+/-- (c) `^n` applies to the unit it follows: an OP_POWER child followed by the NUMBER
+`n` (childless children in between vanish by `C05_expr_skip`) adds `(n-1)·cur` to the power of the
+last unit `u` — the word itself contributed `cur`, so the occurrence counts `n·cur` —
+and only touches `u`. -/
+theorem C05_expr_pow (cur : Int) (c : Compound) (u : UnitKey) (pfx : Int) (op num : At) (rest : List At)
+    (n : Int) (ho : op.t.hasChildren = true) (hko : op.t.kind = .OP_POWER)
+    (ha : num.t.hasChildren = true) (hk : num.t.kind = .NUMBER) (hn : parseI32 num.t.text = some n)
+    (hr : -2147483648 ≤ (n - 1) * cur ∧ (n - 1) * cur ≤ 2147483647) :
+    unitLoop cur c (some (u, pfx)) none (op :: num :: rest) =
+      if (n - 1) * cur = 0 then unitLoop cur c none none rest
+      else match Compound.update c u ((n - 1) * cur) pfx with
+        | .ok c' => unitLoop cur c' none none rest
+        | .error _ => err .prefixMismatch num.off num.stop := by
+  have h1 : ¬ ((n - 1) * cur < -2147483648 ∨ (n - 1) * cur > 2147483647) := by omega
+  by_cases h0 : (n - 1) * cur = 0
+  · simp [unitLoop, ho, hko, ha, hk, hn, h0]
+  · simp only [unitLoop, ho, hko, ha, hk, hn, h0, h1, Bool.not_true, Bool.false_eq_true, ↓reduceIte,
+      beq_self_eq_true, not_false_eq_true, ne_eq, Bool.or_eq_true, decide_eq_true_eq]
+    cases Compound.update c u ((n - 1) * cur) pfx <;> rfl
+
+/-- A child of a UNIT node that has children of its own, as `eval::unit` sees it. -/
+inductive Item
+  /-- a WORD that the unit-word parser reads as these `(stored prefix, unit)` pieces -/
+  | word (pieces : List (Int × UnitKey))
+  /-- a NUMBER that is an `i32` -/
+  | num (n : Int)
+  | mul | div | caret | blank
+  /-- anything else (a word that is no unit, a malformed number, another node kind) -/
+  | other
+
+def classify (a : Eval.At) : Item :=
+  match a.t.kind with
+  | .WORD => match UnitWord.parseWord a.t.text with
+    | some l => .word l
+    | none => .other
+  | .NUMBER => match Eval.parseI32 a.t.text with
+    | some n => .num n
+    | none => .other
+  | .OP_MUL => .mul
+  | .OP_DIV => .div
+  | .OP_POWER => .caret
+  | .WHITESPACE => .blank
+  | _ => .other
+
+/-- The children of a UNIT node that `eval::unit` looks at, classified. -/
+def items (kids : List Eval.At) : List Item := (kids.filter (·.t.hasChildren)).map classify
+
+/-- **The specification's reading of a unit expression.** `cur` is `+1` before and
+`-1` after a `/` (it flips and stays flipped); `last` is the unit a `^` would apply to.
+Juxtaposed words, `*` and blanks multiply: every piece of a word is a factor
+`(10^prefix · unit)^cur`. `^ n` raises the unit it follows to the `n`-th power: on top
+of the factor `…^cur` already counted it contributes `…^((n-1)·cur)`. A number other
+than an exponent must be `1`. Everything else has no reading. -/
+def reading : Int → Option (UnitKey × Int) → List Item → Option UnitSem
+  | _, _, [] => some []
+  | cur, last, .mul :: r => reading cur last r
+  | cur, last, .blank :: r => reading cur last r
+  | cur, last, .div :: r => reading (-cur) last r
+  | cur, last, .num n :: r => if n = 1 then reading cur last r else none
+  | cur, last, .word l :: r =>
+    (reading cur (lastPiece l last) r).map
+      (fun sem => l.map (fun pu => { pfx := pu.1, key := pu.2, power := cur }) ++ sem)
+  | cur, some (u, pfx), .caret :: .num n :: r =>
+    (reading cur none r).map (fun sem => { pfx := pfx, key := u, power := (n - 1) * cur } :: sem)
+  | _, _, .caret :: _ => none
+  | _, _, .other :: _ => none
+
+/-- **C05 (unit expression, general form).** Whenever the loop of `eval::unit` accepts a
+list of children — started with any sign `cur`, any sorted compound `c`, any last
+unit and possibly in the middle of a `^` — the specification's reading of the
+classified children exists, and the resulting compound is `c` times that reading:
+same dimensions, same exact scale. The description log is untouched. -/
+theorem C05_expr_loop (kids : List Eval.At) :
+    ∀ (cur : Int) (c : Compound) (last : Option (UnitKey × Int))
+      (pending : Option (Option (UnitKey × Int) × Eval.At)) (d d' : List Desc) (c' : Compound),
+      AMap.Sorted c → Eval.unitLoop cur c last pending kids d = (.ok c', d') →
+      ∃ sem,
+        (match pending with
+          | none => reading cur last (items kids)
+          | some (lt, _) => reading cur lt (.caret :: items kids)) = some sem ∧
+        d' = d ∧ AMap.Sorted c' ∧
+        (∀ k, dimsFn c' k = dimsFn c k + dimsFn (ofSem sem) k) ∧
+        scaleC c' = scaleC c * scaleC (ofSem sem) := by
+  induction kids with
+  | nil =>
+    intro cur c last pending d d' c' hs h
+    cases pending with
+    | none =>
+      simp only [Eval.unitLoop, pure, Prod.mk.injEq, Except.ok.injEq] at h
+      obtain ⟨rfl, rfl⟩ := h
+      exact ⟨[], by simp [items, reading], rfl, hs, by simp [ofSem, dimsFn_nil], by simp [ofSem, scaleC_nil]⟩
+    | some p => simp [Eval.unitLoop, Eval.err, EvalM.throw] at h
+  | cons a rest ih =>
+    intro cur c last pending d d' c' hs h
+    by_cases hc : a.t.hasChildren = true
+    swap
+    · have hc : a.t.hasChildren = false := by simpa using hc
+      rw [C05_expr_skip _ _ _ _ _ _ hc] at h
+      have hi : items (a :: rest) = items rest := by simp [items, hc]
+      rw [hi]
+      exact ih cur c last pending d d' c' hs h
+    have hi : items (a :: rest) = classify a :: items rest := by simp [items, hc]
+    rw [hi]
+    cases pending with
+    | some p =>
+      obtain ⟨lt, op⟩ := p
+      cases lt with
+      | none => simp [Eval.unitLoop, hc, Eval.err, EvalM.throw] at h
+      | some np =>
+        obtain ⟨name, pfx⟩ := np
+        by_cases hk : a.t.kind = .NUMBER
+        swap
+        · simp [Eval.unitLoop, hc, hk, Eval.err, EvalM.throw] at h
+        cases hn : Eval.parseI32 a.t.text with
+        | none => simp [Eval.unitLoop, hc, hk, hn, Eval.err, EvalM.throw] at h
+        | some n =>
+          by_cases hr : (n - 1) * cur < -2147483648 ∨ (n - 1) * cur > 2147483647
+          · simp [Eval.unitLoop, hc, hk, hn, hr, Eval.err, EvalM.throw] at h
+          by_cases h0 : (n - 1) * cur = 0
+          · simp only [Eval.unitLoop, hc, hk, hn, h0, Bool.not_true, Bool.false_eq_true, ↓reduceIte,
+              beq_self_eq_true, ne_eq, not_true_eq_false, Bool.or_eq_true, decide_eq_true_eq] at h
+            obtain ⟨sem, hr', hd, hs', hdim, hsc⟩ := ih cur c none none d d' c' hs h
+            refine ⟨{ pfx := pfx, key := name, power := (n - 1) * cur } :: sem, ?_, hd, hs', ?_, ?_⟩
+            · simp only at hr'
+              simp [classify, hk, hn, reading, hr']
+            · intro k
+              rw [hdim]
+              simp only [ofSem, List.map_cons, dimsFn_cons, h0]; ring
+            · rw [hsc]
+              simp only [ofSem, List.map_cons, scaleC_cons, term, h0]; simp
+          · cases hu : Compound.update c name ((n - 1) * cur) pfx with
+            | error e =>
+              simp [Eval.unitLoop, hc, hk, hn, hr, h0, hu, Eval.err, EvalM.throw] at h
+            | ok c1 =>
+              simp only [Eval.unitLoop, hc, hk, hn, hr, h0, hu, Bool.not_true, Bool.false_eq_true, ↓reduceIte,
+                beq_self_eq_true, ne_eq, not_false_eq_true, Bool.or_eq_true, decide_eq_true_eq] at h
+              obtain ⟨s1, d1, sc1⟩ := update_sem hs hu
+              obtain ⟨sem, hr', hd, hs', hdim, hsc⟩ := ih cur c1 none none d d' c' s1 h
+              refine ⟨{ pfx := pfx, key := name, power := (n - 1) * cur } :: sem, ?_, hd, hs', ?_, ?_⟩
+              · simp only at hr'
+                simp [classify, hk, hn, reading, hr']
+              · intro k
+                rw [hdim, d1]
+                simp only [ofSem, List.map_cons, dimsFn_cons]; ring
+              · rw [hsc, sc1]
+                simp only [ofSem, List.map_cons, scaleC_cons]; ring
+    | none =>
+      cases hk : a.t.kind with
+      | NUMBER =>
+        cases hn : Eval.parseI32 a.t.text with
+        | none => simp [Eval.unitLoop, hc, hk, hn, Eval.err, EvalM.throw] at h
+        | some n =>
+          by_cases h1 : n = 1
+          · subst h1
+            rw [C05_expr_one _ _ _ _ _ hc hk hn] at h
+            obtain ⟨sem, hr, rest'⟩ := ih cur c last none d d' c' hs h
+            exact ⟨sem, by simp only at hr; simp [classify, hk, hn, reading, hr], rest'⟩
+          · simp [Eval.unitLoop, hc, hk, hn, h1, Eval.err, EvalM.throw] at h
+      | WORD =>
+        cases hw : Eval.wordUnits cur (a.t.text.length + 1) a.t.text c last with
+        | error e => simp [Eval.unitLoop, hc, hk, hw, Eval.err, EvalM.throw] at h
+        | ok r =>
+          obtain ⟨c1, last1⟩ := r
+          simp only [Eval.unitLoop, hc, hk, hw, Bool.not_true, Bool.false_eq_true, ↓reduceIte] at h
+          obtain ⟨l, hp, hu, hl⟩ := wordUnits_ok hw
+          obtain ⟨s1, d1, sc1⟩ := applyPieces_sem hs hu
+          obtain ⟨sem, hr, hd, hs', hdim, hsc⟩ := ih cur c1 last1 none d d' c' s1 h
+          refine ⟨l.map (fun pu => { pfx := pu.1, key := pu.2, power := cur }) ++ sem, ?_, hd, hs', ?_, ?_⟩
+          · simp only at hr
+            have hp' : UnitWord.parseWord a.t.text = some l := hp
+            simp [classify, hk, hp', reading, ← hl, hr]
+          · intro k
+            rw [hdim, d1, ofSem_append, dimsFn_append, ofSem_pieces]; ring
+          · rw [hsc, sc1, ofSem_append, scaleC_append, ofSem_pieces]; ring
+      | OP_POWER =>
+        simp only [Eval.unitLoop, hc, hk, Bool.not_true, Bool.false_eq_true, ↓reduceIte] at h
+        obtain ⟨sem, hr, rest'⟩ := ih cur c none (some (last, a)) d d' c' hs h
+        exact ⟨sem, by simp only at hr; simpa [classify, hk] using hr, rest'⟩
+      | OP_DIV =>
+        rw [C05_expr_div _ _ _ _ _ hc hk] at h
+        obtain ⟨sem, hr, rest'⟩ := ih (-cur) c last none d d' c' hs h
+        exact ⟨sem, by simp only at hr; simpa [classify, hk, reading] using hr, rest'⟩
+      | WHITESPACE =>
+        rw [C05_expr_mul _ _ _ _ _ hc (Or.inr hk)] at h
+        obtain ⟨sem, hr, rest'⟩ := ih cur c last none d d' c' hs h
+        exact ⟨sem, by simp only at hr; simpa [classify, hk, reading] using hr, rest'⟩
+      | OP_MUL =>
+        rw [C05_expr_mul _ _ _ _ _ hc (Or.inl hk)] at h
+        obtain ⟨sem, hr, rest'⟩ := ih cur c last none d d' c' hs h
+        exact ⟨sem, by simp only at hr; simpa [classify, hk, reading] using hr, rest'⟩
+      | _ => simp [Eval.unitLoop, hc, hk, Eval.err, EvalM.throw] at h
+
+end Loop
+/-- **C05 (unit expression).** Whenever `eval::unit` accepts the children of a UNIT
+node, the specification's reading of them exists (juxtaposition, `*` and blanks
+multiply; `/` inverts everything after it; `^n` applies to the unit it follows) and
+the resulting compound has exactly the dimensions and the exact scale
+`∏ (10^prefix · factor)^power` of that reading, as `Spec.SI` computes them. -/
+theorem C05_expr (kids : List Eval.At) (d d' : List Desc) (c : Compound)
+    (h : Eval.unit kids d = (.ok c, d')) :
+    ∃ sem, reading 1 none (items kids) = some sem ∧
+      SI.dims (semOf c) = SI.dims sem ∧ SI.scale (semOf c) = SI.scale sem ∧
+      AMap.Sorted c ∧ d' = d := by
+  obtain ⟨sem, hr, hd, hs, hdim, hsc⟩ :=
+    C05_expr_loop kids 1 [] none none d d' c AMap.sorted_nil h
+  refine ⟨sem, hr, ?_, ?_, hs, hd⟩
+  · rw [dims_semOf, dims_sem]
+    congr 1; funext b
+    rw [hdim, dimsFn_nil, zero_add]
+  · rw [scale_semOf, scale_sem, hsc, scaleC_nil, one_mul]
+
+/-- (c), entry by entry: what the `update` of a `^n` does to the compound. Only the
+entry of `u` changes: its power goes from `p` to `p + (n-1)·cur`, and the entry is
+removed when that is zero. -/
+theorem C05_expr_pow_entry (c c' : Compound) (u : UnitKey) (pfx n cur : Int) (hs : AMap.Sorted c)
+    (h : Compound.update c u ((n - 1) * cur) pfx = .ok c') :
+    (∀ k, k ≠ u → AMap.get? c' k = AMap.get? c k) ∧
+    (∀ st, AMap.get? c u = some st → st.pfx = pfx ∧
+      AMap.get? c' u = if st.power + (n - 1) * cur = 0 then none
+        else some { power := st.power + (n - 1) * cur, pfx := pfx }) :=
+  ⟨(update_entry hs h).1, (update_entry hs h).2.2⟩
+
+/-- A WORD child, entry by entry: one piece `(p, u)` adds `cur` to the power of `u`. -/
+theorem C05_expr_word_entry (c c' : Compound) (u : UnitKey) (p cur : Int) (hs : AMap.Sorted c)
+    (h : applyPieces cur c [(p, u)] = .ok c') :
+    (∀ k, k ≠ u → AMap.get? c' k = AMap.get? c k) ∧
+    (AMap.get? c u = none → AMap.get? c' u = some { power := cur, pfx := p }) ∧
+    (∀ st, AMap.get? c u = some st → st.pfx = p ∧
+      AMap.get? c' u = if st.power + cur = 0 then none else some { power := st.power + cur, pfx := p }) := by
+  simp only [applyPieces] at h
+  split at h
+  · rename_i c1 h1
+    simp only [Except.ok.injEq] at h
+    subst h
+    exact update_entry hs h1
+  · simp at h
+
+/-- The children of the UNIT node the grammar builds for a source text. -/
+def kidsOf (src : String) : List Eval.At :=
+  match Grammar.parseUnit src.toList with
+  | .ok forest =>
+    (match Eval.kidsAt 0 forest with
+     | a :: _ => if a.t.kind == .UNIT then a.kids else []
+     | [] => [])
+  | .error _ => []
+
+/-- Non-vacuity of `C05_expr`: the grammar's children for `km/s^2 kg` are accepted;
+everything after the `/` is inverted, `^2` applies to `s` only, the blank multiplies. -/
+example : (Eval.unit (kidsOf "km/s^2 kg") []).1.toOption =
+      some [(.base .KiloGram, { power := -1, pfx := 0 }), (.base .Meter, { power := 1, pfx := 3 }),
+        (.base .Second, { power := -2, pfx := 0 })] ∧
+    (reading 1 none (items (kidsOf "km/s^2 kg"))).map (·.map fun t => (t.pfx, t.key, t.power)) =
+      some [(3, .base .Meter, 1), (0, .base .Second, -1), (0, .base .Second, -1),
+        (0, .base .KiloGram, -1)] := by decide +kernel
+
+/-- The three expressions of the repaired defect `3c99217`: `m*m^2` is m³, `m/m^2` is
+m⁻¹ and `m^0` is the empty unit (no zero-power entry). -/
+example : (Eval.unit (kidsOf "m*m^2") []).1.toOption = some [(.base .Meter, { power := 3, pfx := 0 })] ∧
+    (Eval.unit (kidsOf "m/m^2") []).1.toOption = some [(.base .Meter, { power := -1, pfx := 0 })] ∧
+    (Eval.unit (kidsOf "m^0") []).1.toOption = some [] := by decide +kernel
+
+/-! ### Strict reading and the stray `^` -/
+
+/-- **The strict reading**: as `reading`, but a `^` must come directly after a unit
+word — `*`, `/`, a blank or a `1` in between leave nothing for it to apply to. -/
+def readingStrict : Int → Option (UnitKey × Int) → List Item → Option UnitSem
+  | _, _, [] => some []
+  | cur, _, .mul :: r => readingStrict cur none r
+  | cur, _, .blank :: r => readingStrict cur none r
+  | cur, _, .div :: r => readingStrict (-cur) none r
+  | cur, _, .num n :: r => if n = 1 then readingStrict cur none r else none
+  | cur, _, .word l :: r =>
+    (readingStrict cur (lastPiece l none) r).map
+      (fun sem => l.map (fun pu => { pfx := pu.1, key := pu.2, power := cur }) ++ sem)
+  | cur, some (u, pfx), .caret :: .num n :: r =>
+    (readingStrict cur none r).map (fun sem => { pfx := pfx, key := u, power := (n - 1) * cur } :: sem)
+  | _, _, .caret :: _ => none
+  | _, _, .other :: _ => none
+
+/-- Every strict reading is a reading, with the same factors. -/
+theorem C05_expr_strict_reading (cur : Int) (last : Option (UnitKey × Int)) (is : List Item) :
+    ∀ (last' : Option (UnitKey × Int)) (sem : UnitSem),
+      readingStrict cur last is = some sem → (last = none ∨ last' = last) →
+      reading cur last' is = some sem := by
+  fun_induction readingStrict cur last is with
+  | case1 => intro last' sem h _; simpa [reading] using h
+  | case2 cur last r ih => intro last' sem h _; exact ih last' sem h (Or.inl rfl)
+  | case3 cur last r ih => intro last' sem h _; exact ih last' sem h (Or.inl rfl)
+  | case4 cur last r ih => intro last' sem h _; exact ih last' sem h (Or.inl rfl)
+  | case5 cur last r ih =>
+    intro last' sem h _
+    simp only [reading, ↓reduceIte]
+    exact ih last' sem h (Or.inl rfl)
+  | case6 => intro last' sem h _; simp at h
+  | case7 cur last l r ih =>
+    intro last' sem h _
+    simp only [Option.map_eq_some_iff] at h
+    obtain ⟨sem', h1, rfl⟩ := h
+    have : reading cur (lastPiece l last') r = some sem' := by
+      cases l with
+      | nil => exact ih _ sem' h1 (Or.inl rfl)
+      | cons pu tl => obtain ⟨p, u⟩ := pu; exact ih _ sem' h1 (Or.inr rfl)
+    simp [reading, this]
+  | case8 cur u pfx n r ih =>
+    intro last' sem h hl
+    simp only [Option.map_eq_some_iff] at h
+    obtain ⟨sem', h1, rfl⟩ := h
+    rcases hl with hl | hl
+    · simp at hl
+    · subst hl
+      simp [reading, ih none sem' h1 (Or.inl rfl)]
+  | case9 => intro last' sem h _; simp at h
+  | case10 => intro last' sem h _; simp at h
+
+/-- **C05 (unit expression, strict reading).** When the children of an accepted UNIT node
+have a strict reading — every `^n` directly after a unit word — the compound has exactly
+the dimensions and the exact scale of that reading. -/
+theorem C05_expr_strict (kids : List Eval.At) (d d' : List Desc) (c : Compound)
+    (h : Eval.unit kids d = (.ok c, d')) (sem : UnitSem)
+    (hs : readingStrict 1 none (items kids) = some sem) :
+    SI.dims (semOf c) = SI.dims sem ∧ SI.scale (semOf c) = SI.scale sem := by
+  obtain ⟨sem', hr, h1, h2, _⟩ := C05_expr kids d d' c h
+  have := C05_expr_strict_reading 1 none (items kids) none sem hs (Or.inl rfl)
+  rw [hr] at this
+  simp only [Option.some.injEq] at this
+  subst this
+  exact ⟨h1, h2⟩
+
+/-- The full-strength statement one would like: every accepted unit expression has a
+*strict* reading. It is FALSE for the model (and the program): a `^n` that follows
+`*`, `/` or a blank-separated operator is not rejected but applied to the last unit
+before the operator (`C05_expr_stray_power`). What is proved instead: `C05_expr` (every
+accepted expression has the looser `reading`, in which `*`, `/` and blanks do not
+forget the last unit) and `C05_expr_strict` (whenever the strict reading exists it is
+the one taken). -/
+def C05_expr_full_statement : Prop :=
+  ∀ (kids : List Eval.At) (d d' : List Desc) (c : Compound), Eval.unit kids d = (.ok c, d') →
+    ∃ sem, readingStrict 1 none (items kids) = some sem ∧
+      SI.dims (semOf c) = SI.dims sem ∧ SI.scale (semOf c) = SI.scale sem
+
+/-- **Pinned oddity (stray `^`).** The grammar and `eval::unit` accept a `^n` that does
+not follow a unit: `m*^2` is read as m², and in `m/^2` the exponent reaches back over
+the `/` with the *inverted* sign, so the expression is dimensionless (`m s/^2` is m).
+None of the three has a strict reading. -/
+theorem C05_expr_stray_power :
+    (Eval.unit (kidsOf "m*^2") []).1.toOption = some [(.base .Meter, { power := 2, pfx := 0 })] ∧
+    (Eval.unit (kidsOf "m/^2") []).1.toOption = some [] ∧
+    (Eval.unit (kidsOf "m s/^2") []).1.toOption = some [(.base .Meter, { power := 1, pfx := 0 })] ∧
+    (readingStrict 1 none (items (kidsOf "m*^2"))).isNone = true ∧
+    (readingStrict 1 none (items (kidsOf "m/^2"))).isNone = true ∧
+    (readingStrict 1 none (items (kidsOf "m s/^2"))).isNone = true := by decide +kernel
+
+theorem C05_expr_full_statement_fails : ¬ C05_expr_full_statement := by
+  intro hfull
+  obtain ⟨_, h1, _, _, h2, _⟩ := C05_expr_stray_power
+  rcases hres : Eval.unit (kidsOf "m/^2") [] with ⟨r, d'⟩
+  rw [hres] at h1
+  cases r with
+  | error e => simp [Except.toOption] at h1
+  | ok c =>
+    obtain ⟨sem, hs, _⟩ := hfull _ _ _ _ hres
+    rw [hs] at h2
+    simp at h2
+
+/-! ## Every unit name is accepted on its own -/
+
+/-- `lit` can be typed as a query word: the lexer turns it into exactly one WORD token
+(this excludes `Ω` and `g-force`, which the query lexer splits or rejects). -/
+def typeable (lit : List Char) : Bool := Lexer.lex lit == [{ kind := .WORD, text := lit }]
+
+/-- The check behind `C05_names`, row by row. -/
+def nameAccepted (r : List Char × WordAction) : Bool :=
+  match r.2 with
+  | .unit k b => !typeable r.1 || UnitWord.parse r.1 == some ([], b, k)
+  | _ => true
+
+/-- **C05 (the two lexers agree).** A unit-name literal of the first (`Combined`) lexer
+is a literal of the second (`Units`) lexer with the same unit and the same bias: a
+name means the same thing with and without a prefix in front of it. -/
+theorem C05_tables_agree (lit : List Char) (k : UnitKey) (bias : Int)
+    (hm : (lit, WordAction.unit k bias) ∈ Generated.combined) :
+    (lit, WordAction.unit k bias) ∈ Generated.unitsOnly := by
+  have h : Generated.combined.all (fun r => match r.2 with
+      | .unit _ _ => Generated.unitsOnly.contains r
+      | _ => true) = true := by decide +kernel
+  have := List.all_eq_true.mp h _ hm
+  simpa using this
+
+/-- **C05 (names).** Every unit name of the lexer tables that can be typed as a query
+word is accepted on its own, completely, as exactly that unit: `parse` consumes the
+whole word and returns the table's unit with the name's own bias as stored prefix
+(`g` ↦ kilogram with prefix −3); the word loop of `eval::unit` turns it into that unit
+with power one. Checked row by row over the whole table, in four chunks. -/
+theorem C05_names (lit : List Char) (k : UnitKey) (bias : Int)
+    (hm : (lit, WordAction.unit k bias) ∈ allRows) (ht : typeable lit = true) :
+    UnitWord.parse lit = some ([], bias, k) ∧
+    UnitWord.parseWord lit = some [(bias, k)] ∧
+    Eval.wordUnits 1 (lit.length + 1) lit [] none =
+      .ok ([(k, { power := 1, pfx := bias })], some (k, bias)) := by
+  have h0 : (Generated.unitsOnly.take 60).all nameAccepted = true := by decide +kernel
+  have h1 : ((Generated.unitsOnly.drop 60).take 60).all nameAccepted = true := by decide +kernel
+  have h2 : ((Generated.unitsOnly.drop 120).take 60).all nameAccepted = true := by decide +kernel
+  have h3 : (Generated.unitsOnly.drop 180).all nameAccepted = true := by decide +kernel
+  have hall : Generated.unitsOnly.all nameAccepted = true := by
+    apply UnitWord.all_of_take_drop _ 60 _ h0
+    apply UnitWord.all_of_take_drop _ 60 _ h1
+    apply UnitWord.all_of_take_drop _ 60 _ (by simpa using h2)
+    simpa using h3
+  have hm' : (lit, WordAction.unit k bias) ∈ Generated.unitsOnly :=
+    (List.mem_append.mp hm).elim id (C05_tables_agree lit k bias)
+  have hp : UnitWord.parse lit = some ([], bias, k) := by
+    have := List.all_eq_true.mp hall _ hm'
+    simpa [nameAccepted, ht] using this
+  have hw := UnitWord.parseWord_single hp
+  refine ⟨hp, hw, ?_⟩
+  have := wordUnits_of_pieces (cur := 1) (c := []) (last := none) hw
+    (c' := [(k, { power := 1, pfx := bias })]) (by simp [applyPieces, Compound.update, AMap.get?, AMap.insert])
+  simpa [lastPiece] using this
+
+/-- Non-vacuity: `mile` (a plain name), `g` (the biased name) and `m` (a prefix letter
+with a stand-alone meaning) are typeable literals of the tables. -/
+example : (['m', 'i', 'l', 'e'], WordAction.unit (.derived 3553165315) 0) ∈ allRows ∧
+    typeable ['m', 'i', 'l', 'e'] = true ∧
+    (['g'], WordAction.unit (.base .KiloGram) (-3)) ∈ allRows ∧ typeable ['g'] = true ∧
+    (['m'], WordAction.unit (.base .Meter) 0) ∈ allRows ∧ typeable ['m'] = true := by decide +kernel
+
+/-- The two literals that cannot be typed as one query word. -/
+example : (allRows.filter (fun r => match r.2 with
+    | .unit _ _ => !typeable r.1
+    | _ => false)).map (·.1) = ["g-force".toList, "Ω".toList, "g-force".toList, "Ω".toList] := by
+  decide +kernel
+
+/-! ### The names the tool prints -/
+
+/-- The display names (singular, plural) the tool prints for a derived unit and that do
+not read back as that unit: g-force is printed `g`, which reads as the gram; the
+plural of `btu` is printed `btus`, which is no literal and reads as btu · second. -/
+def displayDeviations : List (Nat × List Char) :=
+  [(3089834321, ['g']), (3481565844, ['b', 't', 'u', 's'])]
+
+/-- **C05 (display names).** The singular and plural name the tool prints for a derived
+unit, when it can be typed as one query word, is accepted on its own as exactly that
+unit with no prefix — except the two pinned `displayDeviations`. -/
+theorem C05_display_names (d : UnitDef) (hd : d ∈ Generated.units) (n : List Char)
+    (hn : n = d.sing ∨ n = d.plur) (ht : typeable n = true) (hx : (d.id, n) ∉ displayDeviations) :
+    UnitWord.parseWord n = some [(0, .derived d.id)] := by
+  have h : Generated.units.all (fun d => [d.sing, d.plur].all (fun n =>
+      !typeable n || displayDeviations.contains (d.id, n) ||
+        UnitWord.parseWord n == some [(0, .derived d.id)])) = true := by decide +kernel
+  have := List.all_eq_true.mp (List.all_eq_true.mp h d hd) n (by simpa using hn)
+  simpa [ht, hx] using this
+
+/-- The two display names that do not read back, pinned: `g` is the gram (kilogram with
+stored prefix −3), `btus` is btu · second. -/
+theorem C05_pinned_display :
+    (∃ d ∈ Generated.units, d.id = 3089834321 ∧ d.sing = ['g'] ∧ d.plur = ['g']) ∧
+    UnitWord.parseWord ['g'] = some [(-3, .base .KiloGram)] ∧
+    (∃ d ∈ Generated.units, d.id = 3481565844 ∧ d.plur = ['b', 't', 'u', 's']) ∧
+    UnitWord.parseWord ['b', 't', 'u', 's'] = some [(0, .derived 3481565844), (0, .base .Second)] := by
+  decide +kernel
+
+/-- Non-vacuity: the newton is printed `N`, a typeable name outside the exceptions. -/
+example : (∃ d ∈ Generated.units, d.id = 353022001 ∧ d.sing = ['N']) ∧ typeable ['N'] = true ∧
+    (353022001, ['N']) ∉ displayDeviations := by decide +kernel
 
 end Anything.Props.C05
